@@ -135,24 +135,24 @@ CHECKS = {
 # families / routes added in the later rounds of seeded changes (appended to the level text)
 LATER = {
  "C01": "any_c / all_c conditions without a verdict, unique over empties, re-binding of a bound variable name. fixed entry / flatten shapes. key lists naming a key twice, subtraction of sequences with alike-spelled scalars.",
- "C02": "compound assignment over several context nodes, setpath reads, the with() spelling of a put, several keys in one bracket. a container reset and written below, right-hand sides of compound assignments that read the context node. `-=` on sequences with alike-spelled scalars of different types.",
- "C03": "deletes on derived values inside assignments, documents from load() several times per evaluation, deletes from to_entries lists. document-level comments in YAML text, predicates with several answers per element. maps with merge keys and own entries that replace merged ones.",
+ "C02": "compound assignment over several context nodes, setpath reads, the with() spelling of a put, several keys in one bracket. a container reset and written below, right-hand sides of compound assignments that read the context node. `-=` on sequences with alike-spelled scalars of different types. containers created on the fly and used by a later step of the same expression (law created).",
+ "C03": "deletes on derived values inside assignments, documents from load() several times per evaluation, deletes from to_entries lists. document-level comments in YAML text, predicates with several answers per element. maps with merge keys and own entries that replace merged ones. containers `+` took over from one operand (family neutralplus), entries with integer / float / boolean / null keys (family typedkeys).",
  "C04": "a right operand shared by several merges, pattern-looking keys, documents nested about 100 levels, operands reaching anchored nodes through aliases. number-looking string keys, JSON decoder variant. block-style YAML operands, sibling keys that extend one another.",
  "C05": "zero-padded integers, explicit null roots behind leading content, block-scalar lines that look like YAML syntax, tagged empty scalars, byte-level variants (no final line feed, CR line breaks). global tags, the document shifted right. folded scalars with several empty lines between paragraphs.",
  "C06": "explicitly tagged quoted scalars, timestamps, byte strings (not UTF-8) through the JSON encoder. NUL separated raw strings.",
- "C07": "updates through variables, merges as assigned values, append-then-delete identities, -= on anchored sequences, the empty-string key, copy-then-delete. 64-bit identifiers, overlapping one-star patterns. positions counted from the end that lie before the start.",
- "C08": "nested anchors inside merged entries, sums of differently styled collections, reduce over an object-literal accumulator, the document as second document of a stream, position-stamping operators. user-tagged scalars under conversions. encoders over anchor-free maps with non-string keys or an inline merge.",
- "C09": "parent(N) followed by a traversal, layouts as expression files through the real binary, exponent literals, union chains in every grouping. comments ending in a backslash.",
+ "C07": "updates through variables, merges as assigned values, append-then-delete identities, -= on anchored sequences, the empty-string key, copy-then-delete. 64-bit identifiers, overlapping one-star patterns. positions counted from the end that lie before the start. comments owned by single sequence elements next to added elements (family foot), ownership rule for created nodes.",
+ "C08": "nested anchors inside merged entries, sums of differently styled collections, reduce over an object-literal accumulator, the document as second document of a stream, position-stamping operators. user-tagged scalars under conversions. encoders over anchor-free maps with non-string keys or an inline merge. deep comparisons of records with key orders of their own (family records).",
+ "C09": "parent(N) followed by a traversal, layouts as expression files through the real binary, exponent literals, union chains in every grouping. comments ending in a backslash. right operands of the same level without brackets (equal levels group to the right).",
  "C10": "root-first contexts in eval-all, JSON streams (family O7), decoder state over several input files (family O8, shared with C14), pick / omit at the root. a constant side file loaded and changed in place for every document.",
- "C11": "ragged records, the context in a union under a binding, bracketed property keys, braces around several nodes. self-evaluation inside operands, a node assigned its own alias. many-star wildcard patterns (time bound).",
+ "C11": "ragged records, the context in a union under a binding, bracketed property keys, braces around several nodes. self-evaluation inside operands, a node assigned its own alias. many-star wildcard patterns (time bound). anchor graphs with names defined again and self-containing definitions under a lowered stack limit (family anchor-graph).",
  "C12": "pair classes long_line and symlink_target, the target's directory as a protocol role, a short edit after the fault runs of a slice, stdout on a character device.",
  "C13": "anchors on keys, routes 2c-2e (encode then edit then explode; in-expression encoder; assigned alias read back), reads through operator-made copies in a second document, tagged anchored maps. a large anchored sequence.",
- "C14": "decoder-state family (several input files per format), processing-instruction targets, pre-escaped URI text, pattern-looking keys in properties / TOML, Lua maps keyed \"1\", \"2\". Lua long-bracket strings starting with a line break.",
- "C15": "sort_by over scalars with a non-injective key, capitalised booleans, instant-like strings, cross-class answers of the comparison operators. date-like strings. neighbouring floats.",
- "C16": "every question asked twice in one evaluation, delete-then-look, integer positions, one value in two places, keys vs to_entries over merge keys, merge into nothing, slice on the way. loaded multi-document files, grandparents by value. re-ordered copies taken on the way.",
+ "C14": "decoder-state family (several input files per format), processing-instruction targets, pre-escaped URI text, pattern-looking keys in properties / TOML, Lua maps keyed \"1\", \"2\". Lua long-bracket strings starting with a line break. TOML table headers in four orders (family toml:headers), binary integers with underscores.",
+ "C15": "sort_by over scalars with a non-injective key, capitalised booleans, instant-like strings, cross-class answers of the comparison operators. date-like strings. neighbouring floats. sort_by with up to five keys where a late key decides (family multikey).",
+ "C16": "every question asked twice in one evaluation, delete-then-look, integer positions, one value in two places, keys vs to_entries over merge keys, merge into nothing, slice on the way. loaded multi-document files, grandparents by value. re-ordered copies taken on the way. string keys that read as numbers, with key and path steps compared by type.",
  "C17": "alias items under @sh, block scalars and selected inner nodes under -o=shell, non-ASCII digits in keys, every word also as the value of an assignment. re-arranged documents (names after a JSON round trip). flag variants next to -o=shell.",
  "C18": "ragged pivot, row-wise encoders over different headers, Lua globals, one NUL-separating printer across refused results. TOML tables sharing names across inputs. one StringEvaluator across a sequence of evaluations.",
- "C19": "JSON-unencodable values under colour flags, malformed XML among several inputs, in-expression decoders on empty text, failing runs repeated with -i, the -i flag family, beginnings of format names as extensions. -i across file systems. base64 inputs with an incomplete last group.",
+ "C19": "JSON-unencodable values under colour flags, malformed XML among several inputs, in-expression decoders on empty text, failing runs repeated with -i, the -i flag family, beginnings of format names as extensions. -i across file systems. base64 inputs with an incomplete last group. a malformed line at six positions of a TOML file among several (injectTOML).",
 }
 
 NOT_YET = "check not built yet in this round (planned, see DESIGN.md §5); nothing is claimed for it"
